@@ -579,6 +579,8 @@ var c03PolicyKinds = []c03KindNS{
 type c03World struct {
 	profVal map[string]string
 	polKeys []model.PolicyKey
+	// tiersOrderless: every tier of this case has no order, so tier position is decided by name.
+	tiersOrderless bool
 }
 
 func c03GenWorld(t *rapid.T) *c03World {
@@ -586,6 +588,7 @@ func c03GenWorld(t *rapid.T) *c03World {
 	for _, n := range c03LabelNames {
 		w.profVal[n] = rapid.SampledFrom(c03LabelValues).Draw(t, "profileValueFor_"+n)
 	}
+	w.tiersOrderless = rapid.IntRange(0, 2).Draw(t, "allTiersOrderless") == 0
 	n := rapid.IntRange(3, 6).Draw(t, "numPolicyKeys")
 	seen := map[model.PolicyKey]bool{}
 	for len(w.polKeys) < n {
@@ -732,11 +735,17 @@ func c03GenPolicy(t *rapid.T, key model.PolicyKey) *model.Policy {
 	return p
 }
 
-func c03GenTier(t *rapid.T) *model.Tier {
-	return &model.Tier{
-		Order:         c03GenOrder(t, "tierOrder"),
-		DefaultAction: rapid.SampledFrom([]v3.Action{v3.Deny, v3.Pass}).Draw(t, "tierDefaultAction"),
+// c03GenTier: DefaultAction is Deny or Pass as the current ConvertTierV3ToV1Value produces, or
+// empty as a Typha older than the field sends it ("defaultAction,omitempty"; Felix accepts older
+// Typha data, cf. model.LegacyPolicyKey) and as the package's own tests use (&model.Tier{}).
+func c03GenTier(t *rapid.T, orderless bool) *model.Tier {
+	tier := &model.Tier{
+		DefaultAction: rapid.SampledFrom([]v3.Action{"", v3.Deny, v3.Pass}).Draw(t, "tierDefaultAction"),
 	}
+	if !orderless {
+		tier.Order = c03GenOrder(t, "tierOrder")
+	}
+	return tier
 }
 
 func c03GenOwnLabels(t *rapid.T, ns string) map[string]string {
@@ -752,18 +761,25 @@ func c03GenOwnLabels(t *rapid.T, ns string) map[string]string {
 	return m
 }
 
+// c03GenProfileIDs: ProfileIDs is a plain list; nothing de-duplicates it, so repeated IDs occur.
 func c03GenProfileIDs(t *rapid.T) []string {
-	n := rapid.SampledFrom([]int{0, 1, 1, 2, 2}).Draw(t, "numProfiles")
+	n := rapid.SampledFrom([]int{0, 1, 1, 2, 2, 2, 3}).Draw(t, "numProfiles")
 	var ids []string
-	seen := map[string]bool{}
 	for i := 0; i < n; i++ {
-		id := rapid.SampledFrom(c03ProfileIDs).Draw(t, "profileID")
-		if !seen[id] {
-			seen[id] = true
-			ids = append(ids, id)
-		}
+		ids = append(ids, rapid.SampledFrom(c03ProfileIDs).Draw(t, "profileID"))
 	}
 	return ids
+}
+
+func c03HasDuplicate(ids []string) bool {
+	seen := map[string]bool{}
+	for _, id := range ids {
+		if seen[id] {
+			return true
+		}
+		seen[id] = true
+	}
+	return false
 }
 
 func c03GenWep(t *rapid.T, key model.WorkloadEndpointKey, idx int) *model.WorkloadEndpoint {
@@ -1143,6 +1159,15 @@ func c03CheckFold(t *rapid.T, st *c03Store, fold *c03Fold, stats *c03CheckStats)
 			if nilOrder {
 				stats.hit("nil-tier-order")
 			}
+			nNil := 0
+			for n, te := range exp {
+				if te.present && st.tiers[n].Order == nil {
+					nNil++
+				}
+			}
+			if nNil >= 2 {
+				stats.hit("orderless-tiers-ordered-by-name")
+			}
 		}
 	}
 
@@ -1163,6 +1188,9 @@ func c03CheckFold(t *rapid.T, st *c03Store, fold *c03Fold, stats *c03CheckStats)
 		}
 		if overridden {
 			stats.hit("label-override")
+		}
+		if c03HasDuplicate(ep.ProfileIDs) {
+			stats.hit("endpoint-lists-a-profile-twice")
 		}
 		exp, matching := c03Expected(t, st, eff)
 		noteClasses(exp)
@@ -1205,6 +1233,9 @@ func c03CheckFold(t *rapid.T, st *c03Store, fold *c03Fold, stats *c03CheckStats)
 		}
 		if overridden {
 			stats.hit("label-override")
+		}
+		if c03HasDuplicate(ep.ProfileIDs) {
+			stats.hit("endpoint-lists-a-profile-twice")
 		}
 		exp, matching := c03Expected(t, st, eff)
 		noteClasses(exp)
@@ -1332,6 +1363,10 @@ type c03Hist struct {
 	version int
 	// C05 only: probability knob and invalid-value generator.
 	invalidGen func(h *c03Hist, key model.Key) (any, string)
+	// lastDeleted: the valid value a key held when it was last deleted (for "restore").
+	lastDeleted map[string]any
+	// classes noted by the generator itself (merged into the evidence by the tests).
+	classes map[string]bool
 	// rawVal: current raw value and revision per key (for same-revision redelivery).
 	rawVal map[string]c03RawVal
 	revSeq int
@@ -1343,7 +1378,8 @@ type c03Hist struct {
 }
 
 func c03NewHist(t *rapid.T) *c03Hist {
-	return &c03Hist{t: t, world: c03GenWorld(t), valid: c03NewStore(), raw: map[string]bool{}, rawVal: map[string]c03RawVal{}}
+	return &c03Hist{t: t, world: c03GenWorld(t), valid: c03NewStore(), raw: map[string]bool{}, rawVal: map[string]c03RawVal{},
+		lastDeleted: map[string]any{}, classes: map[string]bool{}}
 }
 
 func (h *c03Hist) nextVersion() int {
@@ -1356,7 +1392,7 @@ func (h *c03Hist) genValue(key model.Key) (any, string) {
 	t := h.t
 	switch k := key.(type) {
 	case model.TierKey:
-		v := c03GenTier(t)
+		v := c03GenTier(t, h.world.tiersOrderless)
 		return v, fmt.Sprintf("order=%s default=%s", c03OrderString(v.Order), v.DefaultAction)
 	case model.PolicyKey:
 		v := c03GenPolicy(t, k)
@@ -1448,6 +1484,114 @@ func (h *c03Hist) genStep(weights []string, pInvalid int) c03Step {
 		newType := rapid.IntRange(0, 3).Draw(t, "redeliverAsNew") == 0
 		return c03Step{kind: "R" + c03KindLetter(k), desc: fmt.Sprintf("redeliver %s (current %s value, same revision %s, asNew=%v)", c03KeyString(k), what, rv.rev, newType),
 			key: k, val: rv.val, ok: rv.ok, redeliver: true, newType: newType}
+	case "tier3":
+		// Set a tier that does not exist yet (used to start a case with all tiers present).
+		for _, n := range c03TierNames {
+			if _, ok := h.valid.tiers[n]; !ok {
+				k := model.TierKey{Name: n}
+				v, d := h.genValue(k)
+				return c03Step{kind: "St", desc: fmt.Sprintf("set %s %s", c03KeyString(k), d), key: k, val: v, ok: true}
+			}
+		}
+		op = "tier"
+	case "tdel":
+		// Delete an existing tier (its policies stay).
+		var tks []model.Key
+		for _, n := range c03TierNames {
+			if _, ok := h.valid.tiers[n]; ok {
+				tks = append(tks, model.TierKey{Name: n})
+			}
+		}
+		if len(tks) == 0 {
+			op = "tier"
+			break
+		}
+		k := tks[rapid.IntRange(0, len(tks)-1).Draw(t, "tierDelIdx")]
+		return c03Step{kind: "Dt", desc: "delete " + c03KeyString(k), key: k, val: nil, ok: true}
+	case "restore", "trestore":
+		// Re-create a deleted key with exactly the value it had before the delete.
+		cands := h.restorable(op == "trestore" || rapid.Bool().Draw(t, "restorePreferTier"))
+		if len(cands) == 0 {
+			op = "tier"
+			break
+		}
+		k := cands[rapid.IntRange(0, len(cands)-1).Draw(t, "restoreIdx")]
+		v := h.lastDeleted[c03KeyString(k)]
+		if tk, ok := k.(model.TierKey); ok {
+			for _, p := range h.valid.pols {
+				if p.Tier == tk.Name {
+					h.classes["tier-restored-while-policies-remain"] = true
+				}
+			}
+			if v.(*model.Tier).Order == nil && h.tierPositionMatters(tk.Name) {
+				h.classes["orderless-tier-restored-ahead-of-later-orderless-tier-on-same-endpoint"] = true
+			}
+		}
+		return c03Step{kind: "U" + c03KindLetter(k), desc: "restore " + c03KeyString(k) + " to its value before the delete", key: k, val: v, ok: true}
+	case "eprof":
+		// Update an existing endpoint changing nothing but its profile list.
+		var eks []model.Key
+		for _, k := range c03WepKeys {
+			if _, ok := h.valid.weps[k]; ok {
+				eks = append(eks, k)
+			}
+		}
+		for _, k := range c03HepKeys {
+			if _, ok := h.valid.heps[k]; ok {
+				eks = append(eks, k)
+			}
+		}
+		if len(eks) == 0 {
+			op = "wep"
+			break
+		}
+		k := eks[rapid.IntRange(0, len(eks)-1).Draw(t, "eprofKeyIdx")]
+		var old []string
+		if wk, ok := k.(model.WorkloadEndpointKey); ok {
+			old = h.valid.weps[wk].ProfileIDs
+		} else {
+			old = h.valid.heps[k.(model.HostEndpointKey)].ProfileIDs
+		}
+		var ids []string
+		mode := rapid.IntRange(0, 3).Draw(t, "eprofMode")
+		switch {
+		case mode <= 1 && len(old) > 0:
+			// same length, only IDs that are already listed (repeats / drops / permutations)
+			for range old {
+				ids = append(ids, rapid.SampledFrom(old).Draw(t, "eprofFromOld"))
+			}
+		case mode == 2 && len(old) > 1:
+			for i := len(old) - 1; i >= 0; i-- {
+				ids = append(ids, old[i])
+			}
+		default:
+			ids = c03GenProfileIDs(t)
+		}
+		h.classes["endpoint-profile-list-only-update"] = true
+		if len(ids) == len(old) && fmt.Sprint(ids) != fmt.Sprint(old) {
+			subset := true
+			for _, id := range ids {
+				found := false
+				for _, o := range old {
+					found = found || o == id
+				}
+				subset = subset && found
+			}
+			if subset {
+				h.classes["profile-list-same-length-same-ids-different-list"] = true
+			}
+		}
+		var nv any
+		if wk, ok := k.(model.WorkloadEndpointKey); ok {
+			cp := *h.valid.weps[wk]
+			cp.ProfileIDs = ids
+			nv = &cp
+		} else {
+			cp := *h.valid.heps[k.(model.HostEndpointKey)]
+			cp.ProfileIDs = ids
+			nv = &cp
+		}
+		return c03Step{kind: "P" + c03KindLetter(k), desc: fmt.Sprintf("set %s profiles %v -> %v (nothing else changed)", c03KeyString(k), old, ids), key: k, val: nv, ok: true}
 	case "move":
 		// Change only tier and/or order of an existing policy (tier move / re-order).
 		pks := h.valid.sortedPolKeys()
@@ -1496,6 +1640,69 @@ func c03KindLetter(k model.Key) string {
 		return "g"
 	}
 	return "?"
+}
+
+// tierPositionMatters: some local endpoint has applicable policies both in tier name (absent
+// now) and in an existing order-less tier that sorts after it by name.
+func (h *c03Hist) tierPositionMatters(name string) bool {
+	check := func(own map[string]string, ids []string) bool {
+		eff, _, _ := c03EffectiveLabels(h.valid, own, ids)
+		exp, _ := c03Expected(h.t, h.valid, eff)
+		if exp[name] == nil {
+			return false
+		}
+		for n, te := range exp {
+			if te.present && n > name && h.valid.tiers[n].Order == nil {
+				return true
+			}
+		}
+		return false
+	}
+	for _, k := range c03WepKeys {
+		if e, ok := h.valid.weps[k]; ok && k.Hostname == c03LocalHost && check(c03OwnLabels(e.Labels), e.ProfileIDs) {
+			return true
+		}
+	}
+	for _, k := range c03HepKeys {
+		if e, ok := h.valid.heps[k]; ok && k.Hostname == c03LocalHost && check(c03OwnLabels(e.Labels), e.ProfileIDs) {
+			return true
+		}
+	}
+	return false
+}
+
+// restorable: keys that hold no value now and held a valid one when last deleted.
+func (h *c03Hist) restorable(preferTier bool) []model.Key {
+	var all, tiers []model.Key
+	add := func(k model.Key) {
+		ks := c03KeyString(k)
+		if _, ok := h.lastDeleted[ks]; ok && !h.raw[ks] {
+			all = append(all, k)
+			if _, isTier := k.(model.TierKey); isTier {
+				tiers = append(tiers, k)
+			}
+		}
+	}
+	for _, n := range c03TierNames {
+		add(model.TierKey{Name: n})
+	}
+	for _, k := range h.world.polKeys {
+		add(k)
+	}
+	for _, n := range c03ProfileIDs {
+		add(c03ProfileResKey(n))
+		add(c03ProfileRulesKey(n))
+	}
+	for _, k := range c03WepKeys {
+		add(k)
+	}
+	for _, k := range c03HepKeys {
+		add(k)
+	}
+	if preferTier && len(tiers) > 0 {
+		return tiers
+	}
+	return all
 }
 
 // rawPresentKeys: keys the syncer holds a value for (valid or not), deterministic order.
@@ -1564,6 +1771,7 @@ func (h *c03Hist) record(s c03Step) (a api.Update, b *api.Update) {
 		if validHad {
 			u := mk(nil, true)
 			b = &u
+			h.lastDeleted[ks] = h.valid.get(s.key)
 		}
 		delete(h.raw, ks)
 		delete(h.rawVal, ks)
